@@ -2,6 +2,7 @@ SPECIFICATION MCSpec
 CONSTANTS
   MaxU32 = 7
   RejectNegativeDelta = TRUE
+  TsOnly = FALSE
   MaxOps = 3
 INVARIANTS RoundTrip Ordered
 CONSTRAINT Bound
